@@ -134,7 +134,50 @@ sys.exit(1 if bad else 0)
 '''
 
 
+RETURN_ALIAS = '''
+import sys, os, tempfile, importlib.util
+src = """
+from onnxscript import script, FLOAT
+from onnxscript import opset18 as op
+
+@script(default_opset=op)
+def rebound(x: FLOAT["N"]) -> FLOAT["N"]:
+    y = x
+    x = x + 1.0
+    return y
+
+@script(default_opset=op)
+def nested(x: FLOAT["N"]) -> FLOAT["N"]:
+    def body(s, a):
+        t = s + a
+        return t, a
+    total, same = op.Scan(op.Constant(value_float=0.0), x, body=body, num_scan_inputs=1)
+    return same
+"""
+d = tempfile.mkdtemp(); path = os.path.join(d, "ra_case.py"); open(path, "w").write(src)
+spec = importlib.util.spec_from_file_location("ra_case", path); mod = importlib.util.module_from_spec(spec); sys.modules["ra_case"] = mod; spec.loader.exec_module(mod)
+bad = 0
+def graphs(g):
+    yield g
+    for n in g.node:
+        for a in n.attribute:
+            if a.HasField("g"):
+                yield from graphs(a.g)
+for name in ("rebound", "nested"):
+    m = getattr(mod, name).to_model_proto()
+    for g in graphs(m.graph):
+        ins = {i.name for i in g.input}
+        direct = [o.name for o in g.output if o.name in ins]
+        if direct:
+            print(f"{name}: graph {g.name!r} returns its input(s) {direct} directly as output(s)")
+            bad += 1
+sys.exit(1 if bad else 0)
+'''
+
+
 def replay(ob):
+    if "return.no_graph_input_returned_directly" in ob["name"] or "return.outputs_produced_in_this_graph" in ob["name"]:
+        return RETURN_ALIAS
     if "nested_def.declared_return_types" in ob["name"]:
         return NESTED_RET
     if "to_model_proto" in ob["name"] or "get_called_functions" in ob["name"]:
